@@ -1,13 +1,178 @@
 import DoviModel.Proofs.Split
 import DoviModel.Proofs.Esc
-/-! # C07 — model theorems are added here as the stream-level model (M7/M8) is completed -/
+import DoviModel.Proofs.Hevc
+/-!
+# C07 — RPU k belongs to displayed frame k, for both extract-rpu and inject-rpu
+
+Theorems about the model `Model/Hevc.lean` (`extract`, `inject`), which `./check C07` ties to the real CLI on
+every generated stream (driver ops `hevc.extract`, `hevc.inject`).  The frame labels of hevc_parser
+(`Item.au`, `pres`, `nFrames`) and the library's RPU rewrite (`conv`) are parameters: the theorems hold for
+every value of them that satisfies the stated hypotheses.
+-/
 namespace Dovi.C07
-open Dovi Dovi.Split
+open Dovi Dovi.Split Dovi.Hevc
 
 /-- both layers are read through the same chunked reader: the NAL list each layer contributes does not depend
 on where its read boundaries fall -/
 theorem layer_chunking_irrelevant (cs cs' : List Bytes) (l l' : Bytes)
     (h : cs.flatten ++ l = cs'.flatten ++ l') : run [] cs l = run [] cs' l' := by
   rw [run_eq_split, run_eq_split]; simp [h]
+
+/-! ## extract-rpu -/
+
+/-- The RPUs extract-rpu collects are, in stream (= decode) order, exactly the RPU NALs of the input without
+their 2-byte header — each rewritten by the library when a mode is set, the command failing iff the library
+refuses one — for every stream in which no RPU is attributed to the same (non-zero) frame as the RPU before
+it (`NoDupFrom`; implied by "at most one RPU per access unit", `noDupFrom_of_pairwise`). -/
+theorem extract_collects_decode_order (c : Cfg) (conv : Bytes → Option Bytes) (items : List Item)
+    (hsl : c.sl = false) (hdrop : c.drop = false) (hrpu : c.rpu = true) (hnd : NoDupFrom 0 (rpuAus items)) :
+    (general c conv items).map (fun s => s.rpu) =
+      optMap (fun it => (rpuConv c.convSet conv it.data).map (fun m => m.drop 2)) (items.filter isRpu) :=
+  run_rpu_spec c conv {} items hsl hdrop hrpu hnd
+
+/-- **RPU k of the file belongs to the frame displayed k-th.**  If every frame carries one RPU (`rs`, decode
+order, as many as frames) and `pres` (decode index ↦ presentation number) permutes `0..n-1`, then the file
+extract-rpu writes has `n` entries and its entry number `pres k` is the RPU of the frame decoded `k`-th. -/
+theorem extract_display_order (pres : Nat → Nat) (n : Nat) (c : Cfg) (conv : Bytes → Option Bytes)
+    (items : List Item) (rs : List Bytes) (hsl : c.sl = false) (hdrop : c.drop = false) (hrpu : c.rpu = true)
+    (hnd : NoDupFrom 0 (rpuAus items))
+    (hrs : optMap (fun it => (rpuConv c.convSet conv it.data).map (fun m => m.drop 2)) (items.filter isRpu) = some rs)
+    (hn : n ≠ 0) (hlen : rs.length = n) (hperm : ((List.range n).map pres).Perm (List.range n)) :
+    ∃ out, extract pres n c conv items = some out ∧ out.length = n ∧ ∀ k, k < n → out[pres k]? = rs[k]? :=
+  extract_of_rpus pres n c conv items rs hsl hdrop hrpu hnd hrs hn hlen hperm
+
+/-- the sort is by presentation number and stable, for any `pres` (also when frames lack RPUs and the
+k-th RPU is therefore matched with frame k — what the tool does, see the model) -/
+theorem extract_sorted_by_presentation (pres : Nat → Nat) (rs : List Bytes) :
+    (sortK (keyed pres 0 rs)).Perm (keyed pres 0 rs) ∧ SortedK (sortK (keyed pres 0 rs)) :=
+  ⟨sortK_perm _, sortK_sorted _⟩
+
+/-! ## inject-rpu -/
+
+/-- **Placement.**  A written frame consists of the frame's NALs other than its old RPU (led by the
+regenerated AUD unless --no-add-aud), with the new RPU placed after all of them except a trailing run of
+EOS/EOB NALs: `pre ++ RPU :: post` where `pre ++ post` is that NAL list, `post` holds only EOS/EOB and `pre`
+does not end in one. -/
+theorem inject_places_rpu (c : ICfg) (aud : Nat → Bytes) (r : Bytes) (fr : Nat × List Item) :
+    (frameOut c aud r fr).map pay = preEos (injBody c aud fr) ++ (NAL_UNSPEC62, r) :: postEos (injBody c aud fr) ∧
+    preEos (injBody c aud fr) ++ postEos (injBody c aud fr) = injBody c aud fr ∧
+    (∀ x ∈ postEos (injBody c aud fr), isEos x.1 = true) ∧
+    (∀ x, (preEos (injBody c aud fr)).getLast? = some x → isEos x.1 = false) :=
+  ⟨withSc_pay _ _, pre_post_append _, postEos_all _, preEos_last _⟩
+
+/-- **Which RPU.**  With a list that covers every frame, inject-rpu succeeds and writes, frame buffer by
+frame buffer in stream order, `frameOut` with the list entry number `pres au` — for every stream in which
+each frame holds a NAL that is neither an RPU nor EOS/EOB (a slice, in a video). -/
+theorem inject_spec (c : ICfg) (aud : Nat → Bytes) (pres : Nat → Nat) (nFrames : Nat) (rpus : List Bytes)
+    (items : List Item) (hd : c.drop = false) (hn : nFrames ≠ 0) (hi : items ≠ [])
+    (hr : ∀ fr ∈ frames (keepAud c items), pres fr.1 < rpus.length)
+    (hb : ∀ fr ∈ frames (keepAud c items), preEos (injBody0 fr) ≠ []) :
+    inject c aud pres nFrames rpus items =
+      some ((frames (keepAud c items)).flatMap (fun fr => frameOut c aud (rpus.getD (pres fr.1) []) fr)) :=
+  inject_matched c aud pres nFrames rpus items hd hn hi hr hb
+
+/-- **Every other NAL unchanged and in order.**  For any class `q` of NAL types that excludes the RPUs (and
+the AUDs, unless --no-add-aud), the NALs of that class read the same, bytes and order, before and after. -/
+theorem inject_keeps_other_nals (c : ICfg) (aud : Nat → Bytes) (pres : Nat → Nat) (nFrames : Nat)
+    (rpus : List Bytes) (items : List Item) (out : List Out) (hd : c.drop = false) (hn : nFrames ≠ 0)
+    (hi : items ≠ []) (hr : ∀ fr ∈ frames (keepAud c items), pres fr.1 < rpus.length)
+    (hb : ∀ fr ∈ frames (keepAud c items), preEos (injBody0 fr) ≠ [])
+    (hout : inject c aud pres nFrames rpus items = some out)
+    (q : Nat → Bool) (hq : q NAL_UNSPEC62 = false) (ha : c.noAddAud = true ∨ q NAL_AUD = false) :
+    (out.map pay).filter (fun x => q x.1) = (items.map payI).filter (fun x => q x.1) := by
+  rw [inject_matched c aud pres nFrames rpus items hd hn hi hr hb] at hout
+  simp only [Option.some.injEq] at hout
+  rw [← hout]
+  exact inject_conserves c aud pres rpus items q hq ha
+
+/-- **Exactly one RPU per frame, existing ones replaced.**  The RPUs of the output, in stream order, are the
+list entries `pres au` of the successive frames — whatever RPUs the input carried. -/
+theorem inject_one_rpu_per_frame (c : ICfg) (aud : Nat → Bytes) (pres : Nat → Nat) (nFrames : Nat)
+    (rpus : List Bytes) (items : List Item) (out : List Out) (hd : c.drop = false) (hn : nFrames ≠ 0)
+    (hi : items ≠ []) (hr : ∀ fr ∈ frames (keepAud c items), pres fr.1 < rpus.length)
+    (hb : ∀ fr ∈ frames (keepAud c items), preEos (injBody0 fr) ≠ [])
+    (hout : inject c aud pres nFrames rpus items = some out) :
+    (out.map pay).filter (fun x => x.1 == NAL_UNSPEC62) =
+      (frames (keepAud c items)).map (fun fr => (NAL_UNSPEC62, rpus.getD (pres fr.1) [])) := by
+  rw [inject_matched c aud pres nFrames rpus items hd hn hi hr hb] at hout
+  simp only [Option.some.injEq] at hout
+  rw [← hout]
+  exact inject_rpus c aud pres rpus _
+
+/-- **List shorter than the video: the tool's choice.**  A frame whose presentation number lies beyond the
+list receives the RPU written last (in decode order) — `last_metadata_written` — and the command fails when
+nothing was written yet.  (The property accepts any member of the list; `./check C07` records which.) -/
+theorem inject_shorter_list_choice (c : ICfg) (aud : Nat → Bytes) (pres : Nat → Nat) (rpus : List Bytes)
+    (last : Option Bytes) (final : Bool) (fr : Nat × List Item)
+    (hnone : rpus[pres fr.1]? = none) (hb : preEos (injBody0 fr) ≠ []) :
+    injectFrame c aud pres rpus true last final fr =
+      match last with
+      | some r => some (frameOut c aud r fr, some r)
+      | none => none := by
+  have hb0 : injBody0 fr ≠ [] := by
+    intro h; rw [h] at hb; simp [preEos] at hb
+  have hpre : preEos (injBody c aud fr) ≠ [] := by
+    rw [preEos_ne_nil_iff] at hb ⊢
+    obtain ⟨y, hy, hye⟩ := hb
+    refine ⟨y, ?_, hye⟩
+    unfold injBody; split
+    · exact hy
+    · exact List.mem_cons_of_mem _ hy
+  unfold injectFrame
+  simp only [hnone, if_true]
+  have e0 : (List.map payI (List.filter (fun it => decide (it.typ ≠ NAL_UNSPEC62)) fr.2)) = injBody0 fr := rfl
+  rw [e0, if_neg (by intro h; exact hb0 h.2)]
+  have e1 : (if c.noAddAud = true then injBody0 fr else (NAL_AUD, aud fr.1) :: injBody0 fr) = injBody c aud fr := rfl
+  simp only [e1]
+  cases last with
+  | none => rfl
+  | some r => simp only [if_neg hpre]; rfl
+
+/-- **extract(inject(rpus)) = rpus.**  For a stream whose frame buffers are numbered `0..n-1` in stream order,
+a list of `n` RPUs and a `pres` that permutes `0..n-1`: whatever frame labels the injected stream is read
+back with (as long as its RPUs are not taken for duplicates), extract-rpu returns the injected list. -/
+theorem extract_inject_id (c : ICfg) (aud : Nat → Bytes) (pres : Nat → Nat) (n : Nat) (rpus : List Bytes)
+    (items : List Item) (out : List Out) (its2 : List Item)
+    (hd : c.drop = false) (hn : n ≠ 0) (hi : items ≠ []) (hlen : rpus.length = n)
+    (hperm : ((List.range n).map pres).Perm (List.range n))
+    (hlab : (frames (keepAud c items)).map (·.1) = List.range n)
+    (hb : ∀ fr ∈ frames (keepAud c items), preEos (injBody0 fr) ≠ [])
+    (hout : inject c aud pres n rpus items = some out)
+    (hits : its2.map payI = out.map pay) (hnd : NoDupFrom 0 (rpuAus its2)) (conv : Bytes → Option Bytes) :
+    extract pres n cfgExtract conv its2 = some (rpus.map (fun r => r.drop 2)) :=
+  Hevc.extract_inject_id c aud pres n rpus items out its2 hd hn hi hlen hperm hlab hb hout hits hnd conv
+
+/-! ## non-vacuity: a three-frame stream decoded I P B, displayed I B P -/
+
+/-- every frame: [AUD] slice [EL] [suffix SEI] RPU, the last one closed by EOS -/
+def exItems : List Item :=
+  [⟨35, [0x46, 1, 0x10], 0⟩, ⟨19, [0x26, 1, 0xAA], 0⟩, ⟨63, [0x7E, 1, 0x02, 0x01], 0⟩, ⟨62, [0x7C, 1, 0x19, 0xA0], 0⟩,
+   ⟨1, [0x02, 1, 0xBB], 1⟩, ⟨62, [0x7C, 1, 0x19, 0xA1], 1⟩,
+   ⟨1, [0x02, 1, 0xCC], 2⟩, ⟨40, [0x50, 1, 5, 1, 7, 0x80], 2⟩, ⟨62, [0x7C, 1, 0x19, 0xA2], 2⟩, ⟨36, [0x48, 1], 2⟩]
+
+def exPres : Nat → Nat := fun k => [0, 2, 1].getD k 0
+def exAud : Nat → Bytes := fun k => [[0x46, 1, 0x10], [0x46, 1, 0x30], [0x46, 1, 0x50]].getD k []
+def exRpus : List Bytes := [[0x7C, 1, 0x19, 0xB0], [0x7C, 1, 0x19, 0xB1], [0x7C, 1, 0x19, 0xB2]]
+
+/-- the hypotheses of `extract_display_order` hold and the reordering is visible: file = RPU of frame 0, 2, 1 -/
+example : NoDupFrom 0 (rpuAus exItems) ∧ ((List.range 3).map exPres).Perm (List.range 3) ∧
+    extract exPres 3 cfgExtract (fun _ => none) exItems = some [[0x19, 0xA0], [0x19, 0xA2], [0x19, 0xA1]] := by decide
+
+/-- the hypotheses of `inject_spec` / `extract_inject_id` hold on it … -/
+example : (frames (keepAud {} exItems)).map (·.1) = List.range 3 ∧
+    (∀ fr ∈ frames (keepAud {} exItems), preEos (injBody0 fr) ≠ []) ∧
+    (∀ fr ∈ frames (keepAud {} exItems), exPres fr.1 < exRpus.length) := by decide
+
+/-- … and the injected stream: regenerated AUDs, old RPUs replaced by entry `pres au`, RPU in front of the EOS -/
+example : (inject {} exAud exPres 3 exRpus exItems).map (fun o => o.map pay) = some
+    [(35, [0x46, 1, 0x10]), (19, [0x26, 1, 0xAA]), (63, [0x7E, 1, 0x02, 0x01]), (62, [0x7C, 1, 0x19, 0xB0]),
+     (35, [0x46, 1, 0x30]), (1, [0x02, 1, 0xBB]), (62, [0x7C, 1, 0x19, 0xB2]),
+     (35, [0x46, 1, 0x50]), (1, [0x02, 1, 0xCC]), (40, [0x50, 1, 5, 1, 7, 0x80]), (62, [0x7C, 1, 0x19, 0xB1]), (36, [0x48, 1])] := by
+  decide
+
+/-- a list of two RPUs for the three frames: the frame displayed third (decoded second) repeats the RPU
+written last before it, here entry 0 — not the last entry of the list -/
+example : ((inject {} exAud exPres 3 (exRpus.take 2) exItems).map (fun o => (o.map pay).filter (fun x => x.1 == 62))) = some
+    [(62, [0x7C, 1, 0x19, 0xB0]), (62, [0x7C, 1, 0x19, 0xB0]), (62, [0x7C, 1, 0x19, 0xB1])] := by decide
 
 end Dovi.C07
